@@ -362,14 +362,35 @@ const char * etcLdSoPreload_findEntry (const char * content, const char * entry)
 
     while ((entryPos = strstr(contentPos, entry)) != NULL) {
 
-        // Check the start of the line
+        /*
+         * The entry must be a whole token of the active part of its line: the dynamic loader splits
+         * lines at blanks (so an entry may be indented, or follow another library on the same line)
+         * and ignores everything from a '#' to the end of the line.
+         */
+        const char * linePos = entryPos;
+        int          isInComment = 0;
+        while ((linePos > content) && (linePos[-1] != '\n')) {
+            linePos--;
+            if (*linePos == '#') {
+                isInComment = 1;
+            }
+        }
+
+        // Check the start of the token
         if (
+                (isInComment == 0)
+                &&
                 (
                     // Start of the content
                     (entryPos == content)
                     ||
                     // The preceding character is a newline
-                    ((entryPos > content) && (entryPos[-1] == '\n'))
+                    (entryPos[-1] == '\n')
+                    ||
+                    // The preceding character is a blank (indentation, or another entry precedes on the same line)
+                    (entryPos[-1] == ' ')
+                    ||
+                    (entryPos[-1] == '\t')
                 )
                 &&
                 (
